@@ -36,7 +36,7 @@ REQUIRED_PROBES = {
     "C10": ["cov.evalCovMatrixOptim", "neigh.moving", "vario.generalSolution1", "krig.dualCalcul"],
     "C12": ["vario.generalSolution1", "vario.generalSolution2", "vario.onGridSolution", "vario.genOnGridSolution"],
     "C13": ["simtub.simulatePoint", "simtub.difference", "spde.precisionOp.addEvalPower", "neigh.moving"],
-    "C14": ["simtub.simulatePoint", "spde.precisionOp.addEvalPower", "spde.chebychev.evalOp"],
+    "C14": ["simtub.simulatePoint", "spde.precisionOp.addEvalPower", "spde.chebychev.evalOp", "h.simtub-grid-masked"],
     "C15": ["spde.chebychev.evalOp", "spde.precisionOp.addEvalPower", "mesh.turbo.resetProjMatrix",
             "mesh.standard.resetProjMatrix"],
     "C16": ["grid.coordinateToIndices"],
